@@ -66,6 +66,9 @@ struct Case {
     inputs: Vec<InOp>, collateral: Vec<InOp>, certs: Vec<CertOp>, wdrl: Vec<(Cred, Wit)>,
     votes: Vec<(u32, Cred, Wit)>, props: Vec<(u64, bool, Wit)>, mint: Vec<MintOp>,
     signers: Vec<u64>, refs: Vec<u64>, datums: Vec<u64>,
+    /// optional trailing sections: H rank of the hash bytes of the voters' credentials, Z indices of the withdrawals of 0 lovelace,
+    /// Q (asset id, signed amount) of every mint call (default: asset i mod 3, amount 1 + i)
+    hr: Vec<(Cred, u64)>, zero_wd: Vec<usize>, mintq: Option<Vec<(u64, i64)>>,
 }
 
 // ---------------------------------------------------------------------------------------------
@@ -123,6 +126,9 @@ fn case_line(c: &Case) -> String {
     t.push(format!("S {}", c.signers.len())); for k in &c.signers { t.push(k.to_string()); }
     t.push(format!("R {}", c.refs.len())); for r in &c.refs { t.push(r.to_string()); }
     t.push(format!("D {}", c.datums.len())); for d in &c.datums { t.push(d.to_string()); }
+    if !c.hr.is_empty() { t.push(format!("H {}", c.hr.len())); for (cr, r) in &c.hr { t.push(format!("{} {}", cred_s(cr), r)); } }
+    if !c.zero_wd.is_empty() { t.push(format!("Z {}", c.zero_wd.len())); for i in &c.zero_wd { t.push(i.to_string()); } }
+    if let Some(q) = &c.mintq { t.push(format!("Q {}", q.len())); for (a, x) in q { t.push(format!("{} {}", a, x)); } }
     t.join(" ")
 }
 
@@ -202,6 +208,14 @@ fn parse_case(t: &[String]) -> Case {
     p.expect("S"); c.signers = p.list();
     p.expect("R"); c.refs = p.list();
     p.expect("D"); c.datums = p.list();
+    while p.i < p.t.len() {
+        match p.next() {
+            "H" => { let n = p.num(); for _ in 0..n { let cr = p.cred(); c.hr.push((cr, p.num())); } }
+            "Z" => { let n = p.num(); for _ in 0..n { c.zero_wd.push(p.num() as usize); } }
+            "Q" => { let n = p.num(); let mut q = vec![]; for _ in 0..n { let a = p.num(); q.push((a, p.next().parse::<i64>().expect("amount"))); } c.mintq = Some(q); }
+            x => panic!("trailing section {}", x),
+        }
+    }
     c
 }
 
@@ -489,7 +503,7 @@ fn run_case(c: &Case) -> String {
     let mut kept_wd: Vec<(Cred, &Wit)> = vec![];
     for (i, (cr, wit)) in c.wdrl.iter().enumerate() {
         let addr = RewardAddress::new(0, &w.cred(cr));
-        let coin = BigNum::from(1 + i as u64);
+        let coin = BigNum::from(if c.zero_wd.contains(&i) { 0 } else { 1 + i as u64 });
         let r = match wit {
             Wit::None => wd.add(&addr, &coin),
             Wit::Native(n) => wd.add_with_native_script(&addr, &coin, &w.nsrc(n)),
@@ -540,8 +554,9 @@ fn run_case(c: &Case) -> String {
             MintOp::Native(n) => (MintWitness::new_native_script(&w.nsrc(n)), match n { NSrc::Inline(s, ..) => *s, NSrc::Ref(_, s, _) => *s }),
             MintOp::Plutus(p, r) => (MintWitness::new_plutus_script(&w.psrc(p), &redeemer(*r)), match p { PSrc::Inline(s, _) => *s, PSrc::Ref(_, s, _) => *s }),
         };
-        let name = AssetName::new(vec![b'a' + (i % 3) as u8]).unwrap();
-        let r = mb.add_asset(&wit, &name, &Int::new_i32(1 + i as i32));
+        let (asset, amount) = match &c.mintq { Some(q) => q[i], None => ((i % 3) as u64, 1 + i as i64) };
+        let name = AssetName::new(vec![b'a' + asset as u8]).unwrap();
+        let r = mb.add_asset(&wit, &name, &Int::new_i32(amount as i32));
         if r.is_ok() && !kept_mint.iter().any(|(h2, _)| *h2 == h) { kept_mint.push((h, m)); }   // first source stays
         mark(r.is_ok());
     }
@@ -624,10 +639,36 @@ fn run_case(c: &Case) -> String {
     let col = ins_of(body.collateral());
     let mut rs = vec![]; if let Some(v) = body.required_signers() { for i in 0..v.len() { rs.push(*key_ids.get(&v.get(i).to_bytes()).unwrap_or(&9999)); } }
 
-    format!("ok acc={} dfs={} dss={} sig={} bw={} ns={} ps={} dat={} red={} refs={} ins={} col={} rs={}",
+    // policies of the body's mint and the vote redeemers with their indices
+    let mut hash_ids: BTreeMap<Vec<u8>, u64> = BTreeMap::new();
+    for sid in (0..40u64).chain(1000..1040u64) { hash_ids.insert(w.script_hash(sid).to_bytes(), sid); }
+    let mut mp = vec![];
+    if let Some(m) = body.mint() { let ks = m.keys(); for i in 0..ks.len() { mp.push(*hash_ids.get(&ks.get(i).to_bytes()).unwrap_or(&9999)); } }
+    let mut vred: Vec<(u64, u64)> = vec![];
+    if let Some(v) = wset.redeemers() {
+        for i in 0..v.len() { let r = v.get(i); if r.tag().kind() == RedeemerTagKind::Vote {
+            vred.push((r.index().to_str().parse().unwrap(), datum_id(&r.data()))); } }
+    }
+    vred.sort();
+    let vred_s = if vred.is_empty() { "-".to_string() } else { vred.iter().map(|(t, p)| format!("{}:{}", t, p)).collect::<Vec<_>>().join(",") };
+    // the hash-rank table of the case must be the true one
+    let true_hr = hash_ranks(&w, c);
+    if !c.hr.is_empty() && c.hr != true_hr { return format!("err:stale-hash-rank-table {:?}", true_hr); }
+
+    format!("ok acc={} dfs={} dss={} sig={} bw={} ns={} ps={} dat={} red={} refs={} ins={} col={} rs={} mp={} vred={}",
         if acc.is_empty() { "-".to_string() } else { acc }, fs - us, ss - us,
         list_s(keys.into_iter().collect()), list_s(boots.into_iter().collect()),
-        list_s(ns), list_s(ps), list_s(dat), red_s, list_s(refs), list_s(ins), list_s(col), list_s(rs))
+        list_s(ns), list_s(ps), list_s(dat), red_s, list_s(refs), list_s(ins), list_s(col), list_s(rs), list_s(mp), vred_s)
+}
+
+/// rank of the 28 hash bytes of every credential that votes (byte order, nothing else)
+fn hash_ranks(w: &World, c: &Case) -> Vec<(Cred, u64)> {
+    let mut creds: Vec<Cred> = vec![];
+    for (_, cr, _) in &c.votes { if !creds.contains(cr) { creds.push(cr.clone()); } }
+    let bytes = |cr: &Cred| match cr { Cred::K(k) => kh(*k).to_bytes(), Cred::S(s) => w.script_hash(*s).to_bytes() };
+    let mut sorted: Vec<Vec<u8>> = creds.iter().map(|c| bytes(c)).collect();
+    sorted.sort(); sorted.dedup();
+    creds.iter().map(|cr| { let b = bytes(cr); (cr.clone(), sorted.iter().position(|x| *x == b).unwrap() as u64) }).collect()
 }
 
 // ---------------------------------------------------------------------------------------------
@@ -743,6 +784,8 @@ fn finish(mut c: Case) -> Case {
     let mut used: BTreeSet<u64> = BTreeSet::new();
     for op in c.inputs.iter().chain(c.collateral.iter()) { if let InOp::Byron(_, a, _) = base(op) { used.insert(*a); } }
     c.attrs = used.into_iter().map(|a| (a, byron(a).attributes().len() as u64)).collect();
+    let w = World::new(&c);
+    c.hr = hash_ranks(&w, &c);
     c
 }
 
@@ -757,6 +800,7 @@ fn gen_mix(r: &mut Rng, label: &str, nkeys: u64, size: u64, readd: u8, mixed: bo
     for _ in 0..g.r.below(size / 2 + 1) {
         let cr = g.cred(40); let mism = g.r.chance(1, 12); let wrong = g.r.below(100) < wrong_pct;
         let wit = match &cr { Cred::S(s) if !mism => g.wit_for(*s, mixed, wrong), Cred::K(_) if mism => { let s = g.script_id(); g.wit_for(s, mixed, false) } _ => Wit::None };
+        if g.r.chance(1, 6) { c.zero_wd.push(c.wdrl.len()); }
         c.wdrl.push((cr, wit));
     }
     for _ in 0..g.r.below(size / 2 + 1) {
@@ -890,6 +934,65 @@ fn generate(out: &mut Out) {
             });
         }
         for _ in 0..g.r.below(3) { let with = g.r.chance(2, 3); let wit = if with { Wit::Plutus(g.pwit(false, false)) } else { Wit::None }; c.props.push((g.r.below(4), with, wit)); }
+        emit(finish(c));
+    }
+    // withdrawals of exactly 0 lovelace: the account still has to authorise them
+    for _ in 0..(20 * scale) {
+        let mut g = new_gen(&mut r, 30);
+        let mut c = Case::default(); c.label = "wdzero".into();
+        c.inputs = vec![InOp::Key(0, g.key(), false)];
+        for _ in 0..(1 + g.r.below(4)) {
+            let cr = g.cred(40);
+            let wit = match &cr { Cred::S(s) => g.wit_for(*s, false, false), _ => Wit::None };
+            if g.r.chance(2, 3) { c.zero_wd.push(c.wdrl.len()); }
+            c.wdrl.push((cr, wit));
+        }
+        emit(finish(c));
+    }
+    // several voters of one kind with key and script credentials, every order of the calls: the vote redeemers must sit at
+    // the voters' positions in the ledger's order (script credentials first)
+    for _ in 0..(3 * scale) {
+        let mut g = new_gen(&mut r, 6);
+        let kind = g.r.below(2) as u32;
+        let mut voters: Vec<(u32, Cred, Wit)> = vec![];
+        let ps: Vec<u64> = g.plutus.clone();
+        for j in 0..3usize {
+            let cr = if j == 0 { Cred::S(ps[0]) } else if j == 1 { Cred::K(g.key()) } else if g.r.chance(1, 2) { Cred::S(ps[1]) } else { Cred::K(g.key()) };
+            if voters.iter().any(|(_, c2, _)| *c2 == cr) { continue; }
+            let wit = match &cr { Cred::S(s) => g.wit_for(*s, false, false), _ => Wit::None };
+            voters.push((if j == 2 && g.r.chance(1, 4) { 1 - kind } else { kind }, cr, wit));
+        }
+        if g.r.chance(1, 2) { voters.push((2, Cred::K(g.key()), Wit::None)); }
+        let n = voters.len();
+        let mut idx: Vec<usize> = (0..n).collect();
+        // all rotations and the reversed order (every relative order of two voters occurs)
+        for rot in 0..(2 * n) {
+            let mut c = Case::default(); c.label = "voteorder".into();
+            c.inputs = vec![InOp::Key(0, g.key(), false)]; c.collateral = vec![InOp::Key(1, g.key(), false)];
+            if rot == n { idx.reverse(); }
+            idx.rotate_left(1);
+            c.votes = idx.iter().map(|i| voters[*i].clone()).collect();
+            emit(finish(c));
+        }
+    }
+    // mint quantities: additions that cancel out (the builder must refuse to build), partial cancellations, a rejected zero amount
+    for _ in 0..(20 * scale) {
+        let mut g = new_gen(&mut r, 5);
+        let mut c = Case::default(); c.label = "mintq".into();
+        c.inputs = vec![InOp::Key(0, g.key(), false)]; c.collateral = vec![InOp::Key(1, g.key(), false)];
+        let a = if g.r.chance(1, 2) { MintOp::Native(g.nsrc(false)) } else { let p = g.psrc(false); MintOp::Plutus(p, 0) };
+        let b = { let p = g.psrc(false); MintOp::Plutus(p, 1) };
+        let q = 1 + g.r.below(50) as i64;
+        let mut ops: Vec<(MintOp, u64, i64)> = match g.r.below(6) {
+            0 | 1 => vec![(a.clone(), 0, q), (b.clone(), 0, 3), (a.clone(), 0, -q)],              // cancels: refuse
+            2 => vec![(a.clone(), 0, q), (a.clone(), 1, 2), (b.clone(), 0, 3), (a.clone(), 0, -q)],  // one of two assets cancels: refuse
+            3 => vec![(a.clone(), 0, q), (b.clone(), 0, 3), (a.clone(), 0, -q), (a.clone(), 0, 7)],  // cancels, then minted again: fine
+            4 => vec![(a.clone(), 0, q), (a.clone(), 0, 0), (b.clone(), 1, -4)],                     // zero amount: call rejected
+            _ => vec![(a.clone(), 0, q), (b.clone(), 0, 3), (a.clone(), 0, q)],
+        };
+        if g.r.chance(1, 3) { ops.rotate_left(1); }
+        c.mint = ops.iter().map(|x| x.0.clone()).collect();
+        c.mintq = Some(ops.iter().map(|x| (x.1, x.2)).collect());
         emit(finish(c));
     }
     // empty builder and single items
